@@ -662,6 +662,14 @@ def r07_13(ctx: Ctx, rule: str = "R07.13") -> None:
     ctx.check(ok, rule, h, h.node, "the file is cut at the end of the new header before the signature header commits it",
               "_write_header never truncates the file: after an append session whose data + header end before the end of the old file (or a plain reopen-and-close) bytes of the "
               "old header follow the end of the archive and the signature header no longer describes the bytes on disk", construct="truncate after header")
+    # ... for EVERY kind of output: a BytesIO or a file object of the caller's is cut like a file this object opened; the only condition the
+    # cut may depend on is whether the handle can be cut at all (its `truncate` attribute)
+    for t in tr:
+        other = [cd for cd, pol in q.facts_at(h, t) if "truncate" not in norm(q.expand_locals(h, cd))]
+        ctx.check(not other, rule, h, t, "the cut depends on nothing but the handle's ability to be cut",
+                  (f"`{norm(other[0])}`: " if other else "") + "the truncation behind the new header is skipped for some outputs (a file object or BytesIO handed in by the caller): an archive "
+                  "that shrinks - a small append after a session that stored the header plainly, or mode 'w' onto a stream that still holds a longer archive - keeps the old tail, "
+                  "and 32 + NextHeaderOffset + NextHeaderSize no longer is the size of the stream", construct="conditional truncate after header")
 
 
 def r07_14(ctx: Ctx, rule: str = "R07.14") -> None:
@@ -752,6 +760,8 @@ def run(ctx: Ctx) -> None:
     r07_12(ctx)
     shared.layout_agreement(ctx, "R07.11")
     shared.field_order_agreement(ctx, "R07.18")
+    from . import c17 as _c17
+    _c17.r17_3(ctx)  # bit vectors are written with ceil(n/8) bytes, and declared so
     from . import c10 as _c10
     _c10.r10_15(ctx, rule="R07.19")  # the EmptyFile vector: one bit per member with an empty stream
     r07_10(ctx)
